@@ -1198,6 +1198,9 @@ class BADS:
             is_finished = output_fcn(
                 self.var_transf.inverse_transf(self.u), "init"
             )
+            # the loop below is skipped when the output function stops the run
+            msg = "Optimization terminated: stopped by options['output_fcn']."
+            self.optim_state["termination_msg"] = msg
 
         poll_iteration += 1
         loop_iter = 0
